@@ -124,7 +124,7 @@ func (sp chainSpec) leafViols(c string, ctx []LP) []Viol {
 	w := func(lps ...LP) []LP { return append(append([]LP{}, ctx...), lps...) }
 	vs := []Viol{
 		{Name: "leaf is a CA", All: w(A("+Truth("+c+".BasicConstraintsValid)"), A("+Truth("+c+".IsCA)"))},
-		{Name: "key usage extension absent", All: w(RangeDone(c + ".Extensions")), Not: []LP{A("+OidEq(" + oidKU + ", " + ext + ".Id)")}, Scope: "p0"},
+		{Name: "key usage extension absent", All: w(RangeDone(c + ".Extensions")), Not: []LP{A("+OidEq(" + oidKU + ", " + ext + ".Id)")}, Scope: walkScope},
 		{Name: "digitalSignature missing", All: w(A(fmt.Sprintf("-Bit(%s.KeyUsage, %d)", c, kuDigitalSignature)))},
 	}
 	if sp.kuCrit {
@@ -149,6 +149,10 @@ func (sp chainSpec) leafViols(c string, ctx []LP) []Viol {
 	return vs
 }
 
+// walkScope: the key of the loop that walks the chain in the validator being checked (the
+// whole chain, or - when the root is handled after the loop - the chain without its last element).
+var walkScope = "p0"
+
 func (sp chainSpec) caViols(c, d string, ctx []LP) []Viol {
 	ext := "re(" + c + ".Extensions)"
 	mpl := c + ".MaxPathLen"
@@ -156,7 +160,7 @@ func (sp chainSpec) caViols(c, d string, ctx []LP) []Viol {
 	vs := []Viol{
 		{Name: "issuer is not a CA", All: w(AnyOf(A("-Truth("+c+".BasicConstraintsValid)"), A("-Truth("+c+".IsCA)")))},
 		{Name: "path length constraint smaller than depth", All: w(A("+Lt("+mpl+", "+d+")"), AnyOf(A("+Lt(0, "+mpl+")"), A("+Truth("+c+".MaxPathLenZero)")), AnyOf(A("+Lt(0, "+mpl+")"), A("+Eq(0, "+mpl+")")))},
-		{Name: "key usage extension absent", All: w(RangeDone(c + ".Extensions")), Not: []LP{A("+OidEq(" + oidKU + ", " + ext + ".Id)")}, Scope: "p0"},
+		{Name: "key usage extension absent", All: w(RangeDone(c + ".Extensions")), Not: []LP{A("+OidEq(" + oidKU + ", " + ext + ".Id)")}, Scope: walkScope},
 		{Name: "certSign missing", All: w(A(fmt.Sprintf("-Bit(%s.KeyUsage, %d)", c, kuCertSign)))},
 	}
 	if sp.kuCrit {
@@ -200,17 +204,31 @@ func checkChainValidator(c *Check, sp chainSpec) map[string]bool {
 	accept := returnsWhere(pg, func(s *PState) bool { return retNilErr(s, 0) })
 	c.floor(sp.fn+" accepting returns", 2, len(distinctNodes(accept)))
 	single := "p0[0]"
-	el := "re(p0)"
-	par := "p0[(rk(p0) + 1)]"
+	// the walk: one loop over the whole chain (the root is its last iteration), or a loop over the
+	// chain without its last element followed by straight-line code for the root ("peeled")
+	L, peeled := "p0", false
+	if len(edgeTargets(pg, RangeNext("p0"))) == 0 && len(edgeTargets(pg, RangeNext("p0[_:(len(p0) - 1)]"))) > 0 {
+		L, peeled = "p0[_:(len(p0) - 1)]", true
+	}
+	walkScope = L
+	defer func() { walkScope = "p0" }()
+	el := "re(" + L + ")"
+	rkL := "rk(" + L + ")"
+	par := "p0[(" + rkL + " + 1)]"
+	rootEl, rootDepth := "p0[(len(p0) - 1)]", "((len(p0) - 1) - 1)"
+	never := LP{Desc: "never", F: func(Label) bool { return false }}
 	isSingle, notSingle := A("+Eq(1, len(p0))"), A("-Eq(1, len(p0))")
-	isLast, notLast := A("+Eq((len(p0) - 1), rk(p0))"), A("-Eq((len(p0) - 1), rk(p0))")
-	isLeaf, notLeaf := A("+Eq(0, rk(p0))"), A("-Eq(0, rk(p0))")
+	isLast, notLast := A("+Eq((len(p0) - 1), "+rkL+")"), A("-Eq((len(p0) - 1), "+rkL+")")
+	if peeled {
+		isLast = never // no iteration of the loop is the root's
+	}
+	isLeaf, notLeaf := A("+Eq(0, "+rkL+")"), A("-Eq(0, "+rkL+")")
 	// the walk is entered only for chains of more than one certificate (the single-certificate
 	// case returns before it): then the last position is not position 0, tested or not
-	if body := edgeTargets(pg, RangeNext("p0")); len(body) > 0 {
+	if body := edgeTargets(pg, RangeNext(L)); len(body) > 0 && !peeled {
 		if multi, _ := c.cut(pg, body, notSingle); multi {
 			if nonEmpty, _ := c.cut(pg, body, A("-Empty(p0)")); nonEmpty {
-				notLeaf = AnyOf(A("-Eq(0, rk(p0))"), isLast)
+				notLeaf = AnyOf(A("-Eq(0, "+rkL+")"), isLast)
 			}
 		}
 	}
@@ -232,8 +250,8 @@ func checkChainValidator(c *Check, sp chainSpec) map[string]bool {
 		c.mustPass(pg, R, "single: "+r.name, "single-certificate chain: "+r.name, accept, AnyOf(r.lp, notSingle))
 	}
 	// multi-certificate context: the loop over the whole chain
-	c.mustPass(pg, R, "walk covers the chain", "a chain of several certificates is accepted only after the loop over the whole chain is exhausted", accept, AnyOf(isSingle, RangeDone("p0")))
-	c.onlyAfterExhaustion(pg, R, "no accept inside the walk", "accepting return", "p0", accept)
+	c.mustPass(pg, R, "walk covers the chain", "a chain of several certificates is accepted only after the loop over the whole chain is exhausted", accept, AnyOf(isSingle, RangeDone(L)))
+	c.onlyAfterExhaustion(pg, R, "no accept inside the walk", "accepting return", L, accept)
 	var lreqs []req
 	if sp.timeParam {
 		lreqs = append(lreqs,
@@ -252,17 +270,45 @@ func checkChainValidator(c *Check, sp chainSpec) map[string]bool {
 	for _, r := range sp.leafReqs(el) {
 		lreqs = append(lreqs, req{"position 0: " + r.name, AnyOf(notLeaf, r.lp)})
 	}
-	for _, r := range sp.caReqs(el, "(rk(p0) - 1)") {
+	for _, r := range sp.caReqs(el, "("+rkL+" - 1)") {
 		lreqs = append(lreqs, req{"position >0: " + r.name, AnyOf(isLeaf, r.lp)})
 	}
 	for _, r := range lreqs {
-		c.perIteration(pg, R, "walk: "+r.name, "every certificate of the walk: "+r.name, "p0", r.lp)
+		if peeled && strings.HasPrefix(r.name, "root: ") {
+			continue // decided below, on the code that follows the loop
+		}
+		c.perIteration(pg, R, "walk: "+r.name, "every certificate of the walk: "+r.name, L, r.lp)
+	}
+	scanCtx := []string{single, el}
+	if peeled {
+		// the root, handled after the loop: the same requirements, on every accepting path of a
+		// chain of several certificates
+		rootSig := "IsNil((*crypto/x509.Certificate).CheckSignatureFrom(" + rootEl + ", " + rootEl + "))"
+		rreqs := []req{
+			{"root: self-signature verifies", A("+" + rootSig)},
+			{"root: self-issued", A("+BytesEq(" + rootEl + ".RawIssuer, " + rootEl + ".RawSubject)")},
+		}
+		if sp.timeParam {
+			rreqs = append(rreqs,
+				req{"root: signing time not before NotBefore", AnyOf(A("+IsNil(p1)"), A("-TLt(*p1, "+rootEl+".NotBefore)"))},
+				req{"root: signing time not after NotAfter", AnyOf(A("+IsNil(p1)"), A("-TLt("+rootEl+".NotAfter, *p1)"))})
+		}
+		for _, r := range sp.caReqs(rootEl, rootDepth) {
+			rreqs = append(rreqs, req{"root: " + r.name, r.lp})
+		}
+		for _, r := range rreqs {
+			c.mustPass(pg, R, "walk: "+r.name, "chain of several certificates: "+r.name, accept, AnyOf(isSingle, r.lp))
+		}
+		scanCtx = append(scanCtx, rootEl)
 	}
 	// nested scans
-	for _, cx := range []string{single, el} {
+	for _, cx := range scanCtx {
 		ext := "re(" + cx + ".Extensions)"
 		if sp.kuCrit {
 			c.within(pg, R, "critical flag is the key usage extension's ("+cx+")", "criticality is tested on the key-usage extension itself", cx+".Extensions", A("+OidEq("+oidKU+", "+ext+".Id)"), AnyOf(A("+Truth("+ext+".Critical)"), A("-Truth("+ext+".Critical)")))
+		}
+		if cx == rootEl {
+			continue // the extended-key-usage rules are the leaf's
 		}
 		if sp.tsaEKU {
 			// every extension with the EKU OID must be critical: per iteration either not that OID or critical (first one decides)
@@ -273,7 +319,7 @@ func checkChainValidator(c *Check, sp chainSpec) map[string]bool {
 				}
 				lt := LoopTouched(c.lastLoops)
 				if cx == el {
-					c.perIteration(pg, R, "EKU criticality scan is mandatory ("+cx+")", "the scan for a non-critical EKU extension runs for the leaf", "p0", AnyOf(notLeaf, lt))
+					c.perIteration(pg, R, "EKU criticality scan is mandatory ("+cx+")", "the scan for a non-critical EKU extension runs for the leaf", L, AnyOf(notLeaf, lt))
 				} else {
 					c.mustPass(pg, R, "EKU criticality scan is mandatory ("+cx+")", "the scan for a non-critical EKU extension runs for the leaf", accept, AnyOf(ctxOut, lt))
 				}
@@ -295,21 +341,33 @@ func checkChainValidator(c *Check, sp chainSpec) map[string]bool {
 		Viol{Name: "single: not self-issued", All: []LP{isSingle, A("-BytesEq(" + single + ".RawIssuer, " + single + ".RawSubject)")}},
 	)
 	if sp.timeParam {
-		for _, cx := range []string{single, el} {
+		for _, cx := range scanCtx {
 			viols = append(viols,
 				Viol{Name: "signing time outside validity", All: []LP{A("-IsNil(p1)"), AnyOf(A("+TLt(*p1, "+cx+".NotBefore)"), A("+TLt("+cx+".NotAfter, *p1)"))}})
 		}
 	}
 	viols = append(viols, sp.leafViols(single, sctx)...)
-	viols = append(viols,
-		Viol{Name: "root self-signature invalid", All: []LP{isLast, A("-" + selfSig)}},
-		Viol{Name: "root not self-issued", All: []LP{isLast, A("-" + selfIss)}},
-		Viol{Name: "non-root certificate is self-signed", All: []LP{notLast, A("+" + selfSig), A("+" + selfIss)}},
-		Viol{Name: "not signed by the next certificate", All: []LP{notLast, A("-IsNil((*crypto/x509.Certificate).CheckSignatureFrom(" + el + ", " + par + "))")}},
-		Viol{Name: "next certificate is not the named issuer", All: []LP{notLast, A("-BytesEq(" + par + ".RawSubject, " + el + ".RawIssuer)")}},
-	)
+	if peeled {
+		rootSig := "IsNil((*crypto/x509.Certificate).CheckSignatureFrom(" + rootEl + ", " + rootEl + "))"
+		viols = append(viols,
+			Viol{Name: "root self-signature invalid", All: []LP{A("-" + rootSig)}},
+			Viol{Name: "root not self-issued", All: []LP{A("-BytesEq(" + rootEl + ".RawIssuer, " + rootEl + ".RawSubject)")}},
+			Viol{Name: "non-root certificate is self-signed", All: []LP{A("+" + selfSig), A("+" + selfIss)}},
+			Viol{Name: "not signed by the next certificate", All: []LP{A("-IsNil((*crypto/x509.Certificate).CheckSignatureFrom(" + el + ", " + par + "))")}},
+			Viol{Name: "next certificate is not the named issuer", All: []LP{A("-BytesEq(" + par + ".RawSubject, " + el + ".RawIssuer)")}},
+		)
+		viols = append(viols, sp.caViols(rootEl, rootDepth, nil)...)
+	} else {
+		viols = append(viols,
+			Viol{Name: "root self-signature invalid", All: []LP{isLast, A("-" + selfSig)}},
+			Viol{Name: "root not self-issued", All: []LP{isLast, A("-" + selfIss)}},
+			Viol{Name: "non-root certificate is self-signed", All: []LP{notLast, A("+" + selfSig), A("+" + selfIss)}},
+			Viol{Name: "not signed by the next certificate", All: []LP{notLast, A("-IsNil((*crypto/x509.Certificate).CheckSignatureFrom(" + el + ", " + par + "))")}},
+			Viol{Name: "next certificate is not the named issuer", All: []LP{notLast, A("-BytesEq(" + par + ".RawSubject, " + el + ".RawIssuer)")}},
+		)
+	}
 	viols = append(viols, sp.leafViols(el, []LP{isLeaf})...)
-	viols = append(viols, sp.caViols(el, "(rk(p0) - 1)", []LP{notLeaf})...)
+	viols = append(viols, sp.caViols(el, "("+rkL+" - 1)", []LP{notLeaf})...)
 	origins := errorOrigins(pg, 0)
 	c.floor(sp.fn+" rejection origins", 20, len(origins))
 	c.justify(pg, sp.prop+".B", origins, viols, originName)
@@ -320,6 +378,13 @@ func checkChainValidator(c *Check, sp chainSpec) map[string]bool {
 	for _, a := range pg.AtomSet() {
 		if strings.Contains(a, "Extensions") || strings.Contains(a, "ExtKeyUsage") || strings.Contains(a, "TLt(") || strings.Contains(a, "IsNil(p1)") {
 			continue
+		}
+		// the two forms of the walk name the same things differently
+		a = strings.ReplaceAll(a, "p0[_:(len(p0) - 1)]", "p0")
+		a = strings.ReplaceAll(a, "p0[(len(p0) - 1)]", "re(p0)")
+		a = strings.ReplaceAll(a, "((len(p0) - 1) - 1)", "(rk(p0) - 1)")
+		if strings.Contains(a, "Eq((len(p0) - 1), rk(p0))") {
+			continue // "is this the root's iteration": only the one-loop form asks
 		}
 		sig[a] = true
 	}
